@@ -38,7 +38,7 @@ EXPLANATION = (
     "test, refill while fewer than MAX_KEYPRESS_SIZE bytes are buffered, events appended in find_key order, "
     "READ_SIZE >= MAX_KEYPRESS_SIZE; Q7 the wait reports 'timed out, nothing' only when select returned nothing; "
     "Q8 bytes enter the buffer one by one, all of them, in order; K7 find_key moves bytes pop(0)->append in one "
-    "statement, full= is an emptiness test of the same buffer, a key ends the loop, leftovers raise; Q10 with nothing "
+    "statement, full= is an emptiness test of the same buffer, a key ends the loop, leftovers raise; (the timeout a wait receives is decided by the interpreted histories below: H5)  "
     "scheduled the wait receives the caller's timeout unchanged."
 )
 NOT_DECIDED = ("actual interleavings and races between threads; the remaining-time arithmetic of the wait loop (float clock "
@@ -363,27 +363,6 @@ def rule_q4(src, rep, counts):
         rep.ob("Q4-no-wait-when-scheduled-due", f.where(w), f.scope, unparse(w.func) + " [due]", seen_due and due_ok,
                "the wait is reachable from the branch in which the earliest scheduled event is already due (or no due test "
                "precedes the wait)")
-        # Q10: the wait's argument
-        if len(w.args) == 1 and isinstance(w.args[0], ast.Name):
-            var = w.args[0].id
-            dl = local_defs(f.node).get(var, [])
-            plain = [d for d in dl if isinstance(d, ast.Name) and d.id in f.params()]
-            mins = [d for d in dl if isinstance(d, ast.Call) and unparse(d.func) == "min"]
-            ok = len(dl) == 2 and len(plain) == 1 and len(mins) == 1
-            if ok:
-                names = {x.id for x in ast.walk(mins[0]) if isinstance(x, ast.Name)}
-                ok = plain[0].id in names and "when" in names
-                # the plain definition sits in the branch where nothing is scheduled
-                for n in f.own_nodes():
-                    if isinstance(n, (ast.Assign, ast.AnnAssign)) and getattr(n, "value", None) is plain[0]:
-                        g = lexical_guard(f.module, n, f.node)
-                        ok = ok and (("self.queued_scheduled_events", False) in g or G("len(self.queued_scheduled_events) == 0") in g)
-            rep.ob("Q10-timeout-passed-through", f.where(w), f.scope, "%s(%s)" % (unparse(w.func), var), ok,
-                   "with nothing scheduled the wait must get the caller's timeout unchanged, otherwise min(time until the "
-                   "earliest scheduled event, timeout); found definitions %s" % [unparse(d) if d is not None else "?" for d in dl])
-        else:
-            rep.ob("Q10-timeout-passed-through", f.where(w), f.scope, unparse(w), False,
-                   "unrecognised argument of the wait call")
 
 
 def _reassigned_between(cfg, a, b, var):
